@@ -78,14 +78,14 @@ def space(ctx):
             "params": ["()", "(r)", "(q, r)"],
             "exit": "None or each node" if ctx.thorough else "None or each node (n <= 2); None or the last node (n = 3)",
             "catch_graph_nodes": [1, 2] + ([3] if ctx.thorough else []),
-            "dex_files": D.DEX_FILES}
+            "dex_files": D.dex_files(ctx)}
 
 
 def shards(ctx):
     s = [("bin", 1, 0, 2, 9), ("bin", 2, 0, 16, 9)]
     s += [("bin", 3, lo, lo + 8, 9) for lo in range(0, 512, 8)]            # 64 shards, 4 rooted graphs each on average
     s += [("tri", 1, 0, 1, 9)] + [("tri", 2, k, 4, 9) for k in range(4)]
-    for name in D.DEX_FILES:
+    for name in D.dex_files(ctx):
         parts = 4 if name.endswith("classes.dex") else 1
         s += [("dex", name, k, parts) for k in range(parts)]
     if ctx.thorough:
